@@ -412,6 +412,14 @@ def execute(sc: dict, seed: int) -> dict:
             stats["probe.idempotency_key"] = 1
             if s2.get("run_space_launch_id") != launch_id:
                 viols.append(oracles.V("launch_id", "idempotency_key_not_reproducible", f"{where}; {launch_id} vs {s2.get('run_space_launch_id')}"))
+            # a retry (next attempt number) of the same plan with the same key belongs to the same launch
+            sc_retry = dict(sc, attempt=sc["attempt"] + 1)
+            Lr = _launch(sc_retry, w, "idem_retry", rs, opt="idem")
+            sr = next((r for r in Lr["records"] if r.get("record_type") == "run_space_start"), {})
+            if sr.get("run_space_launch_id") != launch_id:
+                viols.append(oracles.V("launch_id", "idempotency_key_depends_on_attempt", f"{where}; attempt {sc['attempt']} -> {launch_id}, attempt {sc['attempt'] + 1} -> {sr.get('run_space_launch_id')}"))
+            if sr.get("run_space_attempt") != sc["attempt"] + 1:
+                viols.append(oracles.V("fk", "attempt_in_start_of_retry", f"{where}; {sr.get('run_space_attempt')}"))
             L3 = _launch(sc, w, "idem2", rs, opt="idem", idem="k2")
             s3 = next((r for r in L3["records"] if r.get("record_type") == "run_space_start"), {})
             if s3.get("run_space_launch_id") == launch_id:
